@@ -8,6 +8,7 @@ import (
 	"fmt"
 	"os"
 	"os/exec"
+	"path/filepath"
 	"strings"
 	"sync"
 	"sync/atomic"
@@ -40,6 +41,24 @@ func runChildJSON(ctxTimeout time.Duration, unpriv bool, env []string, sub strin
 			if sa, err := exec.LookPath("setarch"); err == nil {
 				cmd = exec.CommandContext(cctx, sa, "x86_64", "--uname-2.6", self, "child", sub)
 			}
+		}
+	}
+	for _, e := range env {
+		if name, ok := strings.CutPrefix(e, "VERIF_EXENAME="); ok && name != "" {
+			// the same binary under another executable name (a symbolic link: comm and /proc/<pid>/stat show the link's name)
+			d, err := os.MkdirTemp(filepath.Dir(publicSelf()), "exe")
+			if err == nil {
+				os.Chmod(d, 0o755)
+				defer os.RemoveAll(d)
+				link := filepath.Join(d, name)
+				if os.Symlink(self, link) == nil {
+					cmd = exec.CommandContext(cctx, link, "child", sub)
+				}
+			}
+		}
+		if e == "VERIF_PRCTL_DELAY=1" {
+			// schedule point at prctl(2): a tracer holds the calling thread in the kernel for 60 ms after every prctl
+			cmd = exec.CommandContext(cctx, "strace", "-f", "-o", "/dev/null", "-e", "trace=prctl", "-e", "signal=none", "-e", "inject=prctl:delay_exit=60000", self, "child", sub)
 		}
 	}
 	cmd.Stdin = bytes.NewReader(b)
@@ -146,6 +165,11 @@ func checkC10(tier, replay string) int {
 						// flag word says (without thread-sync: nobody else gets the new filter)
 						scripts = append(scripts, tsyncScript{Phases: v, Flags: fl, LoaderMain: lm, NNP: false, PriorSync: true})
 					}
+					if len(v) <= 2 {
+						// environment: the executable's name (which the kernel repeats in /proc/<pid>/stat and comm) has blanks and
+						// parentheses in it - nothing about the load may depend on what the process is called
+						scripts = append(scripts, tsyncScript{Phases: v, Flags: fl, LoaderMain: lm, NNP: true, ExeName: "a b) R 9 (9 0"})
+					}
 					if len(v) <= 2 && fl&1 != 0 {
 						// a thread with a private filter: the kernel refuses thread-sync; nil is only acceptable if everyone is covered
 						scripts = append(scripts, tsyncScript{Phases: v, Flags: fl, LoaderMain: lm, NNP: true, Divergent: true})
@@ -185,6 +209,9 @@ func checkC10(tier, replay string) int {
 		}
 		if sc.Uname26 {
 			env = append(env, "VERIF_UNAME26=1")
+		}
+		if sc.ExeName != "" {
+			env = append(env, "VERIF_EXENAME="+sc.ExeName)
 		}
 		limit := 40 * time.Second
 		if len(sc.Phases) > 8 {
